@@ -100,9 +100,9 @@ def items_for(quick, dialects=DIALECTS):
             for g in (qgroups if quick else tgroups) + extra[fam]: items.append((fam, b, tuple(g)))
     return items
 
-def run(ctx, dialects=DIALECTS):
+def run(ctx, dialects=DIALECTS, deep=False):
     global ENG
-    quick = ctx.tier == 'quick'
+    quick = ctx.tier == 'quick' and not deep
     ENG = eng = ctx.engine()
     nat = ctx.nat()
     items = items_for(quick, dialects)
